@@ -351,8 +351,17 @@ def spec_heap_resize():
         new = p.cells[("L:_2", ())][1]
         new_bytes_wide = "(bvmul %s %s)" % (zx(es), zx(new))
         lim = zx("(bvsub %s (bvsub %s %s))" % (ISIZE_MAX(), al, bvconst(1)))
-        return [("panics only when new_size x element size is not a valid allocation size (or the allocator failed)",
-                 OR("(bvugt %s %s)" % (new_bytes_wide, lim), "true" if "handle_alloc_error" in str(p.outcome) or "unwrap_or_else" in str(p.outcome) else "false"))]
+        obs = [("panics only when new_size x element size is not a valid allocation size (or the allocator failed)",
+                OR("(bvugt %s %s)" % (new_bytes_wide, lim), "true" if "handle_alloc_error" in str(p.outcome) or "unwrap_or_else" in str(p.outcome) else "false"))]
+        # the chunk is dropped during unwinding (Drop = resize(0) -> dealloc with the layout computed from `size`):
+        # a refused request must leave (pointer, size) describing the block that is still owned
+        fin = ex.as_bv(ex.read_cell(p, "O:arg1", (1,), "usize"))[1]
+        ptr0 = sym(ex, p, "O:arg1", (0,))
+        ptr = ex.as_bv(ex.read_cell(p, "O:arg1", (0,), "usize"))[1]
+        if not (events(p, "alloc") or events(p, "realloc") or events(p, "dealloc")):
+            obs.append(("a refused request leaves the recorded capacity and the storage pointer unchanged (the chunk is still dropped while unwinding)",
+                        AND("(= %s %s)" % (fin, size), "(= %s %s)" % (ptr, ptr0))))
+        return obs
     return Spec("HeapMem::resize", "src/mem/heap.rs", "resize", ["C18", "C10", "C12"], _heap_invariant, on_return, on_panic, "layouts presented to alloc/realloc/dealloc (one inductive step from any valid HeapMem)")
 
 
